@@ -92,3 +92,138 @@ Proof.
     rewrite (fd_adjoint_all m p dx x y Hdx Hxy) by (rewrite ?Hx; assumption).
     cbn. ring.
 Qed.
+
+(* ---------------- real <-> complex, realified: C^n = R^2n (re ++ im), weights w ++ w ---------------- *)
+Notation OKR := cring_ok_R.
+Lemma cinner_split (w x y : list R) : length x = (length w + length w)%nat -> length y = (length w + length w)%nat ->
+  cinner (w ++ w) x y =
+  cinner w (firstn (length w) x) (firstn (length w) y) + cinner w (skipn (length w) x) (skipn (length w) y).
+Proof.
+  intros Hx Hy. rewrite <- (firstn_skipn (length w) x) at 1. rewrite <- (firstn_skipn (length w) y) at 1.
+  apply (cinner_app OKR); rewrite firstn_length; lia.
+Qed.
+Lemma half_len (w x : list R) : length x = length (w ++ w) -> length x = (length w + length w)%nat.
+Proof. rewrite app_length; auto. Qed.
+Lemma conjR (a : R) : nconj a = a. Proof. reflexivity. Qed.
+Lemma firstn_app_exact (a b : list R) n : length a = n -> firstn n (a ++ b) = a.
+Proof. intros; subst n. rewrite firstn_app, Nat.sub_diag, firstn_O, app_nil_r. apply firstn_all. Qed.
+Lemma skipn_app_exact (a b : list R) n : length a = n -> skipn n (a ++ b) = b.
+Proof. intros; subst n. rewrite skipn_app, Nat.sub_diag, skipn_O, skipn_all. reflexivity. Qed.
+
+Lemma leaf_ok_realR (w : list R) : leaf_ok (LRealR w).
+Proof. split; [|split; reflexivity]. exact (adj_id w). Qed.
+Lemma leaf_ok_imagR (w : list R) : leaf_ok (LImagR w).
+Proof.
+  split; [|split; reflexivity]. cbn [leaf_dom leaf_ran leaf_adjoint]. split; [|split].
+  - intros x _; apply zeros_len.
+  - intros y _; apply zeros_len.
+  - intros x y _ _. cbn [eval eval_leaf]. rewrite (cinner_zeros_l OKR), (cinner_zeros_r OKR). reflexivity.
+Qed.
+
+(* with the repaired adjoint (variant fx = true): RealPart(X).adjoint = ComplexEmbedding(X.real_space, 1) *)
+Lemma leaf_ok_realC_fixed (w : list R) : leaf_ok (LRealC w true).
+Proof.
+  split; [|split; reflexivity]. cbn [leaf_dom leaf_ran leaf_adjoint]. split; [|split].
+  - intros x Hx. apply half_len in Hx. cbn [eval_leaf]. rewrite firstn_length; lia.
+  - intros y Hy. cbn [eval eval_leaf]. rewrite !app_length, !vscal_len. lia.
+  - intros x y Hx Hy. apply half_len in Hx. cbn [eval eval_leaf].
+    rewrite cinner_split by (rewrite ?app_length, ?vscal_len; lia).
+    rewrite firstn_app_exact, skipn_app_exact by (rewrite vscal_len; lia).
+    rewrite !(cinner_vscal_r OKR), !conjR. cbn. ring.
+Qed.
+Lemma leaf_ok_imagC_fixed (w : list R) : leaf_ok (LImagC w true).
+Proof.
+  split; [|split; reflexivity]. cbn [leaf_dom leaf_ran leaf_adjoint]. split; [|split].
+  - intros x Hx. apply half_len in Hx. cbn [eval_leaf]. rewrite skipn_length; lia.
+  - intros y Hy. cbn [eval eval_leaf]. rewrite !app_length, !vscal_len. lia.
+  - intros x y Hx Hy. apply half_len in Hx. cbn [eval eval_leaf].
+    rewrite cinner_split by (rewrite ?app_length, ?vscal_len; lia).
+    rewrite firstn_app_exact, skipn_app_exact by (rewrite vscal_len; lia).
+    rewrite !(cinner_vscal_r OKR), !conjR. cbn. ring.
+Qed.
+(* the pinned source (fx = false) returns an operator on the complex space: wrong domain *)
+Lemma realC_adjoint_domain_refuted :
+  dom (leaf_adjoint (LRealC [1] false)) <> leaf_ran (LRealC [1] false)
+  /\ dom (leaf_adjoint (LImagC [1] false)) <> leaf_ran (LImagC [1] false).
+Proof. split; cbn; discriminate. Qed.
+
+Lemma embedR_form (w x y : list R) sr si : length x = length w -> length y = (length w + length w)%nat ->
+  cinner (w ++ w) (vscal sr x ++ vscal si x) y =
+  sr * cinner w x (firstn (length w) y) + si * cinner w x (skipn (length w) y).
+Proof.
+  intros Hx Hy. rewrite cinner_split by (rewrite ?app_length, ?vscal_len; lia).
+  rewrite firstn_app_exact, skipn_app_exact by (rewrite vscal_len; lia).
+  rewrite !(cinner_vscal_l OKR). reflexivity.
+Qed.
+Lemma leaf_ok_embedR_fixed (w : list R) sr si : leaf_ok (LEmbedR w sr si true).
+Proof.
+  assert (Hdr : dom (leaf_adjoint (LEmbedR w sr si true)) = w ++ w /\ ran (leaf_adjoint (LEmbedR w sr si true)) = w).
+  { cbn [leaf_adjoint]. destruct (si =? nzero)%num; [split; reflexivity|]. destruct (sr =? nzero)%num; split; reflexivity. }
+  split; [|exact Hdr]. cbn [leaf_dom leaf_ran]. split; [|split].
+  - intros x Hx. cbn [eval_leaf]. rewrite !app_length, !vscal_len. lia.
+  - intros y Hy. apply half_len in Hy. cbn [leaf_adjoint].
+    destruct (si =? nzero)%num; [|destruct (sr =? nzero)%num]; cbn [eval eval_leaf];
+      rewrite ?vadd_len, ?vscal_len, ?firstn_length, ?skipn_length; try lia.
+    rewrite !vscal_len, firstn_length, skipn_length. lia.
+  - intros x y Hx Hy. apply half_len in Hy. cbn [eval_leaf]. rewrite embedR_form by assumption.
+    cbn [leaf_adjoint]. cbn [neqb Num_R nzero].
+    destruct (Reqb_spec si 0) as [Hsi|Hsi]; [|destruct (Reqb_spec sr 0) as [Hsr|Hsr]]; cbn [eval eval_leaf].
+    + rewrite (cinner_vscal_r OKR), conjR, Hsi. numR. ring.
+    + rewrite (cinner_vscal_r OKR), conjR, Hsr. numR. ring.
+    + rewrite (cinner_vadd_r OKR) by (rewrite !vscal_len, firstn_length, skipn_length; lia).
+      rewrite !(cinner_vscal_r OKR), !conjR. reflexivity.
+Qed.
+
+(* ComplexEmbedding(complex space, s): multiplication by s = sr + i si on re ++ im *)
+Lemma wdot_vsub_l_R (w u v y : list R) : length u = length v ->
+  wdot w (vsub u v) y = wdot w u y - wdot w v y.
+Proof.
+  revert u v y; induction w as [|c w IH]; intros u v y Hl.
+  - rewrite !wdot_nil_l. numR. ring.
+  - destruct u as [|a u], v as [|b v]; cbn in Hl; try congruence.
+    + unfold vsub; cbn [vmap2]. rewrite !wdot_nil_x. numR. ring.
+    + destruct y as [|d y]; [rewrite !wdot_nil_y; numR; ring|].
+      unfold vsub; cbn [vmap2]; rewrite !wdot_cons. fold (vsub u v). rewrite IH by congruence. numR. ring.
+Qed.
+Lemma wdot_vsub_r_R (w x u v : list R) : length u = length v ->
+  wdot w x (vsub u v) = wdot w x u - wdot w x v.
+Proof.
+  revert x u v; induction w as [|c w IH]; intros x u v Hl.
+  - rewrite !wdot_nil_l. numR. ring.
+  - destruct x as [|d x]; [rewrite !wdot_nil_x; numR; ring|].
+    destruct u as [|a u], v as [|b v]; cbn in Hl; try congruence.
+    + unfold vsub; cbn [vmap2]. rewrite !wdot_nil_y. numR. ring.
+    + unfold vsub; cbn [vmap2]; rewrite !wdot_cons. fold (vsub u v). rewrite IH by congruence. numR. ring.
+Qed.
+Lemma cinner_R (w x y : list R) : cinner w x y = wdot w x y.
+Proof. unfold cinner. rewrite vconj_R. reflexivity. Qed.
+Lemma div2_double n : Nat.div2 (n + n) = n.
+Proof. replace (n + n)%nat with (2 * n)%nat by lia. apply Nat.div2_double. Qed.
+Lemma vsub_len (x y : list R) : length x = length y -> length (vsub x y) = length x.
+Proof. apply vmap2_len. Qed.
+
+Lemma cscale_len sr si (x : list R) n : length x = (n + n)%nat -> length (cscale sr si x) = (n + n)%nat.
+Proof.
+  intros Hx. unfold cscale. rewrite Hx, div2_double, app_length.
+  rewrite vsub_len, vadd_len; rewrite ?vscal_len, ?firstn_length, ?skipn_length; lia.
+Qed.
+Lemma leaf_ok_embedC (w : list R) sr si : leaf_ok (LEmbedC w sr si).
+Proof.
+  split; [|split; reflexivity]. cbn [leaf_dom leaf_ran leaf_adjoint]. split; [|split]; rewrite ?app_length.
+  - intros x Hx. cbn [eval_leaf]. apply cscale_len; assumption.
+  - intros y Hy. cbn [eval eval_leaf]. apply cscale_len; assumption.
+  - intros x y Hx Hy. cbn [eval eval_leaf]. set (n := length w) in *.
+    assert (L1 : length (firstn n x) = n) by (rewrite firstn_length; lia).
+    assert (L2 : length (skipn n x) = n) by (rewrite skipn_length; lia).
+    assert (L3 : length (firstn n y) = n) by (rewrite firstn_length; lia).
+    assert (L4 : length (skipn n y) = n) by (rewrite skipn_length; lia).
+    rewrite (cinner_split w (cscale sr si x) y) by (fold n; first [assumption | rewrite (cscale_len sr si x n) by assumption; reflexivity]).
+    rewrite (cinner_split w x (cscale sr (- si) y)) by (fold n; first [assumption | rewrite (cscale_len sr (- si) y n) by assumption; reflexivity]).
+    fold n. unfold cscale. rewrite Hx, Hy, div2_double.
+    rewrite !firstn_app_exact, !skipn_app_exact
+      by (rewrite ?vsub_len, ?vadd_len, ?vscal_len; rewrite ?vscal_len; congruence).
+    rewrite !cinner_R.
+    rewrite wdot_vsub_l_R, wdot_vsub_r_R by (rewrite !vscal_len; congruence).
+    rewrite (wdot_vadd_l OKR), (wdot_vadd_r OKR) by (rewrite !vscal_len; congruence).
+    rewrite !(wdot_vscal_l OKR), !(wdot_vscal_r OKR). numR. ring.
+Qed.
